@@ -1,6 +1,8 @@
 """C04 — message queue is safe for many concurrent senders and one receiver (tie D; inductive invariant over all interleavings)."""
-import glob, hashlib, itertools, json, os
+import glob, hashlib, itertools, json, os, sys
+from concurrent.futures import ThreadPoolExecutor
 import vlib
+import skeleton
 
 META = {
     'engine': 'lean-D',
@@ -19,7 +21,8 @@ REQUIRED = ['Librfn.C04.mq_inv_init', 'Librfn.C04.mq_inv_step', 'Librfn.C04.mq_i
             'Librfn.C04.exclusive_ownership', 'Librfn.C04.outstanding_slots_distinct', 'Librfn.C04.claim_hands_out_unowned',
             'Librfn.C04.fifo_claim_order', 'Librfn.C04.exactly_once', 'Librfn.C04.receive_succeeds_iff', 'Librfn.C04.payload_intact',
             'Librfn.C04.claim_bounded', 'Librfn.C04.claim_fails_only_if_full', 'Librfn.C04.quiescent_count',
-            'Librfn.C04.mq_no_adjacent_conflict', 'Librfn.C04.shifts_defined', 'Librfn.C04.claim_wrap_counterexample', 'Librfn.C04.d2_schedule_fixed']
+            'Librfn.C04.mq_no_adjacent_conflict', 'Librfn.C04.shifts_defined', 'Librfn.C04.claim_wrap_counterexample', 'Librfn.C04.d2_schedule_fixed',
+            'Librfn.C04.skeleton_matches_messageq', 'Librfn.C04.mq_ord_all_seqcst', 'Librfn.C04.mq_fields_atomic']
 MAXSEND = 7
 
 
@@ -152,6 +155,116 @@ def exhaustive_two_senders():
     return out
 
 
+def gen_long_sequential(rng, n=8):
+    """long SEQUENTIAL runs (no preemption at all): >= 300 claim/send/receive/release cycles on depths that do not divide
+    256, in bursts of 1..depth messages, so that every 8-bit index / counter of the structure wraps several times"""
+    out = []
+    depths = [3, 5, 6, 7] + rng.shuffle([9, 10, 11, 12, 13, 15, 17, 24, 31])[:max(0, n - 4)]
+    for d in depths[:n]:
+        cycles = rng.range(300, 420)
+        ns = rng.range(1, min(3, d))
+        per = (cycles + ns - 1) // ns
+        progs = [f's{per}'] * ns
+        r = ns
+        toks, done = [], 0
+        while done < per:
+            burst = rng.range(1, max(1, min(d // ns, 3)))
+            for _ in range(burst):
+                toks += [f'{i}!' for i in range(ns)]
+            toks += [f'{r}!'] * (burst * ns)
+            done += burst
+        out.append(scen(d, 4, per * ns + 4, 0, progs, toks))
+    return out
+
+
+def step_threads(log):
+    """thread id of every operation (atomic or plain payload access) in an implementation log, in order"""
+    out = []
+    for l in log:
+        w = l.split()
+        if len(w) >= 5 and w[0][0] == 'T' and w[0][1:].isdigit() and w[1] != 'ret':
+            out.append(int(w[0][1:]))
+    return out
+
+
+def sweep_configs():
+    """small configurations for the systematic preemption sweep: depth 1-2, 0..depth buffers pre-held (h) or pre-sent (s1),
+    1-3 senders, the receiver; base = the serial round-robin schedule"""
+    out = []
+    for depth in (1, 2):
+        pres = [()]
+        for k in range(1, depth + 1):
+            pres += [c for c in itertools.combinations_with_replacement(('h', 's1'), k)]
+        for pre in pres:
+            for ns in (1, 2, 3):
+                per = 2 if ns < 3 else 1
+                progs = list(pre) + [f's{per}'] * ns
+                np_ = len(pre)
+                senders = list(range(np_, np_ + ns))
+                r = np_ + ns
+                nmsg = per * ns + sum(1 for x in pre if x == 's1')
+                prefix = [f'{i}!' for i in range(np_)]
+                body = []
+                for _ in range(per):
+                    for t in senders:
+                        body += [f'{t}!', f'{r}!']
+                body += [f'{r}!'] * 2
+                out.append({'cfg': f'{depth} 4 {nmsg + 3} 0 ' + ' '.join(progs), 'prefix': prefix, 'body': body,
+                            'threads': senders + [r], 'pre_threads': list(range(np_))})
+    return out
+
+
+def sweep_level1(exe, timeout=300):
+    """single preemption, driven by the implementation: run the serial base, read off which thread performed each
+    operation, and at EVERY operation position let every other thread run one whole iteration"""
+    cfgs = sweep_configs()
+    base = run_impl(exe, [{'cfg': c['cfg'], 'schedule': c['prefix'] + c['body']} for c in cfgs], timeout)
+    scs, meta = [], []
+    for c, log in zip(cfgs, base):
+        steps = [t for t in step_threads(log) if t not in c['pre_threads']]
+        c['steps'] = steps
+        for p in range(len(steps) + 1):
+            cur = steps[p] if p < len(steps) else None
+            for u in c['threads']:
+                if u == cur:
+                    continue
+                toks = c['prefix'] + [str(t) for t in steps[:p]] + [f'{u}!'] + [str(t) for t in steps[p:]]
+                scs.append({'cfg': c['cfg'], 'schedule': toks})
+                meta.append((c, p, u))
+    return scs, meta
+
+
+def sweep_level2(exe, scs1, meta1, logs1):
+    """two preemptions: inside the pre-empting iteration of level 1 (its length is read off the implementation's log),
+    at every operation position, every other thread runs one whole iteration"""
+    out = []
+    for sc, (c, p, u), log in zip(scs1, meta1, logs1):
+        steps_all = step_threads(log)
+        npre = sum(1 for t in steps_all if t in c['pre_threads'])
+        body = steps_all[npre:]
+        n_u = 0
+        while p + n_u < len(body) and body[p + n_u] == u:
+            n_u += 1
+        if p < len(c['steps']) and n_u == 0:
+            continue
+        steps = c['steps']
+        for q in range(0, n_u):
+            for w in c['threads']:
+                if w == u:
+                    continue
+                toks = c['prefix'] + [str(t) for t in steps[:p]] + [str(u)] * q + [f'{w}!', f'{u}!'] + [str(t) for t in steps[p:]]
+                out.append({'cfg': c['cfg'], 'schedule': toks})
+    return out
+
+
+def run_impl_parallel(exe, scs, timeout):
+    if len(scs) <= 3000:
+        return run_impl(exe, scs, timeout)
+    chunks = [scs[o:o + 1500] for o in range(0, len(scs), 1500)]
+    with ThreadPoolExecutor(max_workers=min(12, os.cpu_count() or 2)) as ex:
+        return [r for part in ex.map(lambda c: run_impl(exe, c, timeout), chunks) for r in part]
+
+
 # ----------------------------------------------------------------------------- running
 def harness(ctx):
     R = vlib.REPO
@@ -199,11 +312,15 @@ def simpler(sc):
     for d in sorted({1, 2, 4, int(head[0]) - 1}):
         if 1 <= d < int(head[0]):
             yield dict(sc, cfg=' '.join([str(d)] + head[1:] + progs))
+    if int(head[2]) > 8:
+        yield dict(sc, cfg=' '.join(head[:2] + [str(int(head[2]) // 2), head[3]] + progs))
     if int(head[2]) > 0:
         yield dict(sc, cfg=' '.join(head[:2] + [str(int(head[2]) - 1), head[3]] + progs))
     if head[3] != '0':
         yield dict(sc, cfg=' '.join(head[:3] + ['0'] + progs))
     for i, p in enumerate(progs):
+        if p[0] == 's' and int(p[1:]) > 8:
+            yield dict(sc, cfg=' '.join(head + progs[:i] + [f's{int(p[1:]) // 2}'] + progs[i + 1:]))
         if p[0] == 's' and int(p[1:]) > 1:
             yield dict(sc, cfg=' '.join(head + progs[:i] + [f's{int(p[1:]) - 1}'] + progs[i + 1:]))
     if len(progs) > 1:
@@ -216,23 +333,31 @@ def simpler(sc):
             yield {'cfg': ' '.join(head + progs[:i] + progs[i + 1:]), 'schedule': toks}
 
 
-def shrink(ctx, exe, sc, fails):
-    """delta-debug the schedule, then simplify the configuration (fewer messages, fewer attempts, fewer threads) to a fixpoint"""
+def shrink(ctx, exe, sc, fails, max_tests=450):
+    """delta-debug the schedule, simplify the configuration greedily (smaller depth, fewer attempts, fewer messages, fewer
+    threads), delta-debug again; bounded number of harness runs (the result need not be minimal, it must be a witness)"""
+    tests = [0]
+    def f(c):
+        tests[0] += 1
+        return fails(c)
     cur = {'cfg': sc['cfg'], 'schedule': list(sc['schedule'])}
-    budget = 600
-    while budget > 0:
-        toks = vlib.ddmin(cur['schedule'], lambda t: bool(t) and fails(dict(cur, schedule=t)), max_tests=200)
-        if len(toks) == 1 and fails(dict(cur, schedule=[])):
-            toks = []
-        cur = dict(cur, schedule=toks)
+    dd = 120
+    if len(cur['schedule']) > 150:       # long runs: every harness run is slow, a rough witness is enough
+        max_tests, dd = 140, 40
+    cur['schedule'] = vlib.ddmin(cur['schedule'], lambda t: bool(t) and f(dict(cur, schedule=t)), max_tests=dd)
+    progress = True
+    while progress and tests[0] < max_tests:
+        progress = False
         for c in simpler(cur):
-            budget -= 1
-            if fails(c):
-                cur = c
+            if tests[0] >= max_tests:
                 break
-        else:
-            break
-    return cur
+            if f(c):
+                cur, progress = c, True
+                break
+    toks = vlib.ddmin(cur['schedule'], lambda t: bool(t) and f(dict(cur, schedule=t)), max_tests=dd)
+    if len(toks) == 1 and f(dict(cur, schedule=[])):
+        toks = []
+    return dict(cur, schedule=toks)
 
 
 def key_of(sc):
@@ -243,15 +368,10 @@ def check_batch(ctx, exe, scs, label, timeout, stats):
     """compare implementation, model and monitor on a batch; returns number agreed, reports the first failure"""
     if not scs:
         return 0
-    if len(scs) > 3000:          # big groups: the pthread harness is the slow side, run chunks of it in parallel
-        from concurrent.futures import ThreadPoolExecutor
-        chunks = [scs[o:o + 1500] for o in range(0, len(scs), 1500)]
-        with ThreadPoolExecutor(max_workers=min(12, os.cpu_count() or 2)) as ex:
-            impl = [r for part in ex.map(lambda c: run_impl(exe, c, timeout), chunks) for r in part]
-    else:
-        impl = run_impl(exe, scs, timeout)
+    impl = run_impl_parallel(exe, scs, timeout)
     model = run_model(ctx, scs, timeout)
     agreed = 0
+    first_diff = None
     for i, sc in enumerate(scs):
         io = impl[i] if i < len(impl) else ['!! missing']
         mo = model[i] if i < len(model) else ['!! missing']
@@ -267,7 +387,8 @@ def check_batch(ctx, exe, scs, label, timeout, stats):
                 stats['messages_received'] += 1
         bad = monitor_complains(io)
         if not bad and io == mo:
-            agreed += 1
+            if first_diff is None:
+                agreed += 1
             continue
         if bad:
             def fails(c):
@@ -284,11 +405,15 @@ def check_batch(ctx, exe, scs, label, timeout, stats):
                                               'schedule token t = one atomic/plain operation of thread t, t! = until its iteration completes; receiver = last thread id',
                            'how_to_rerun': f'./check {ctx.pid} --replay <this file>'}, key=key_of(small))
             return agreed
-        # the monitor is silent but the logs differ: the model no longer mirrors the code
+        # the monitor is silent but the logs differ: the model no longer mirrors the code; keep scanning the batch for a
+        # scenario on which the monitor does complain (that is the concrete counterexample), report the break otherwise
+        if first_diff is None:
+            first_diff = (sc, io, mo)
+    if first_diff is not None:
+        sc, io, mo = first_diff
         k = vlib.diff_streams(io, mo)
         ctx.broken.append(f'correspondence {label}: per-operation log of the implementation differs from the model at line {k} '
                           f'(monitor silent) cfg="{sc["cfg"]}" schedule="{" ".join(sc["schedule"])[:200]}": impl={io[max(0, (k or 0) - 1):(k or 0) + 2]} model={mo[max(0, (k or 0) - 1):(k or 0) + 2]}')
-        return agreed
     return agreed
 
 
@@ -302,6 +427,8 @@ def corpus():
 
 def run(ctx):
     rng = vlib.Rng(ctx.seed)
+    for unit, err in skeleton.regen_skeleton(['messageq']):
+        ctx.broken.append(f'tie S: atomic-operation skeleton of {unit} could not be extracted from the source: {err}')
     ctx.prove(['Librfn.Props.C04'], REQUIRED)
     exe = harness(ctx)
     if not ctx.build_model():
@@ -312,7 +439,10 @@ def run(ctx):
               ('full-queue-claims-in-flight', [gen_full(rng) for _ in range(150 if quick else 6000)]),
               ('free-preemption', [gen_free(rng) for _ in range(120 if quick else 5000)]),
               ('interrupt-nesting', [gen_isr(rng) for _ in range(80 if quick else 3000)])]
+    groups.append(('long-sequential', gen_long_sequential(rng, 2 if quick else 10)))
     if not quick:
+        l1, _ = sweep_level1(exe)
+        groups.append(('preemption-sweep-level-1', l1))
         ex = exhaustive_two_senders()
         groups.append(('exhaustive-two-senders', ex))
         ctx.cov['exhaustive'] = f'{len(ex)} schedules: every interleaving of two single-message senders (6 operations each) on depth 1-2 with 0..depth buffers pre-held, and every interleaving of two senders (5 operations each) with the receiver\'s receive/read/release of an already sent message on depth 1-2'
@@ -331,21 +461,39 @@ def run(ctx):
         if ctx.violations:
             break
     if ctx.broken and not ctx.violations:
-        # the model or a proof no longer matches the code and the monitor has not complained yet: search harder against the monitor
-        deep = [gen_full(rng) for _ in range(4000)] + [gen_free(rng, big=True) for _ in range(3000)] + [gen_isr(rng) for _ in range(1500)] + exhaustive_two_senders()[:20000]
-        for off in range(0, len(deep), 1000):
-            part = deep[off:off + 1000]
-            impl = run_impl(exe, part, 600)
-            hit = [i for i in range(min(len(impl), len(part))) if monitor_complains(impl[i])]
-            if hit:
-                sc = part[hit[0]]
-                small = shrink(ctx, exe, sc, lambda c: bool(monitor_complains(run_impl(exe, [c], 60)[0])))
-                out = run_impl(exe, [small], 60)[0]
-                ctx.violation({'obligation': 'deep search: ownership monitor on the real messageq.c', 'cfg': small['cfg'], 'schedule': small['schedule'],
-                               'monitor': monitor_complains(out)[:6], 'implementation_log': out[:60],
-                               'how_to_rerun': f'./check {ctx.pid} --replay <this file>'}, key=key_of(small))
-                break
-        ctx.cov['deep_search_scenarios'] = len(deep)
+        # the model or a proof no longer matches the code and the monitor has not complained yet: search harder, judged by the
+        # ownership monitor alone (the model is no longer a reference)
+        def report(sc, label):
+            small = shrink(ctx, exe, sc, lambda c: bool(monitor_complains(run_impl(exe, [c], 60)[0])))
+            out = run_impl(exe, [small], 60)[0]
+            bad = monitor_complains(out)
+            first = out.index(bad[0]) if bad and bad[0] in out else 0
+            ctx.violation({'obligation': f'deep search ({label}): ownership monitor on the real messageq.c', 'cfg': small['cfg'], 'schedule_tokens': len(small['schedule']),
+                           'schedule': small['schedule'], 'monitor': bad[:6], 'implementation_log_around_first_complaint': out[max(0, first - 24):first + 6],
+                           'implementation_log_tail': out[-6:],
+                           'token_semantics': 'cfg = depth msglen receiver-attempts poll sender-programs (s<k>: k messages, h: claim and hold); '
+                                              'schedule token t = one atomic/plain operation of thread t, t! = until its iteration completes; receiver = last thread id',
+                           'how_to_rerun': f'./check {ctx.pid} --replay <this file>'}, key=key_of(small))
+        def search(scs, label):
+            impl = run_impl_parallel(exe, scs, 600)
+            deep_counts[label] = len(scs)
+            for i in range(min(len(impl), len(scs))):
+                if monitor_complains(impl[i]):
+                    report(scs[i], label)
+                    return True, impl
+            return False, impl
+        deep_counts = {}
+        found, _ = search(gen_long_sequential(rng, 13), 'long sequential runs')
+        if not found:
+            l1, m1 = sweep_level1(exe)
+            found, logs1 = search(l1, 'preemption sweep, one preemption at every operation position')
+            if not found:
+                found, _ = search(sweep_level2(exe, l1, m1, logs1), 'preemption sweep, two nested preemptions')
+        if not found:
+            found, _ = search([gen_full(rng) for _ in range(4000)] + [gen_free(rng, big=True) for _ in range(3000)] + [gen_isr(rng) for _ in range(1500)], 'random campaign')
+        if not found:
+            found, _ = search(exhaustive_two_senders()[:20000], 'exhaustive two senders')
+        ctx.cov['deep_search_scenarios'] = deep_counts
     ctx.cov['traces_validated_against_impl'] = total_agreed
     ctx.cov['groups'] = per_group
     ctx.cov['atomic_op_histogram'] = stats['ops']
@@ -355,7 +503,7 @@ def run(ctx):
     g = groups[1][1]
     ctx.sample(g[0]); ctx.sample(groups[2][1][0]); ctx.sample(groups[3][1][0])
     ctx.cov['rule'] = ('scenario = (depth 1-4 or 32, 1-7 senders each sending 1-3 (depth 32: 6-14) messages or claiming one buffer and holding it, receiver attempts, polling) + a schedule of thread ids; '
-                       'three generators: queue filled then >= 2 claims interleaved at single-operation granularity incl. whole claims nested inside a failing claim\'s decrement/re-increment window; '
+                       'generators: long sequential runs (>= 300 cycles on depths not dividing 256); queue filled then >= 2 claims interleaved at single-operation granularity incl. whole claims nested inside a failing claim\'s decrement/re-increment window; '
                        'random free preemption; nested run-to-completion (interrupt style); compared per scenario: full per-operation log of the real code vs the Lean model, and the harness\'s ownership monitor; '
                        'distinct = distinct (cfg, schedule); non-trivial = at least 3 tokens')
     ctx.assumptions.append(META['level_note'])
